@@ -218,8 +218,8 @@ PLANS["C01"] = {
 }
 PLANS["C03"] = {
     "props": ["C03"], "ops": ["feed"],
-    "mc": [mcrec("graph", {"quick": 5, "thorough": 6}, True, ports({"chars": 1, "chars1": 3, "bytes": 4}, {"chars": 1, "chars1": 2, "bytes": 3})),
-           mcrec("graph", {"quick": 5, "thorough": 6}, False, ports({"chars": 1, "chars1": 3, "bytes": 4}, {"chars": 1, "chars1": 2, "bytes": 3})),
+    "mc": [mcrec("graph", {"quick": 5, "thorough": 6}, True, ports({"chars": 1, "chars1": 5, "bytes": 7}, {"chars": 1, "chars1": 5, "bytes": 7})),
+           mcrec("graph", {"quick": 5, "thorough": 6}, False, ports({"chars": 1, "chars1": 5, "bytes": 7}, {"chars": 1, "chars1": 5, "bytes": 7})),
            mcrec("directed", 1, True, ports({"chars": 1, "chars1": 2, "bytes": 2}, {"chars": 1, "chars1": 1, "bytes": 1, "bytes1": 1})),
            mcrec("directed", 1, False, ports({"chars": 1}, {"chars": 1, "bytes": 1})),
            mcrec("osc", 1, True, ports({"chars": 2}, {"chars": 1, "bytes": 1})),
